@@ -440,6 +440,10 @@ class SecopClient(ProxyClient):
                         if prev is entry:
                             self.active_requests.pop(key)
                             break
+                while not self.pending.empty():
+                    # a request parked by the TX thread just after the reply freeing its key
+                    # was treated must not wait for the next reply
+                    self.txq.put(self.pending.get())
                 # may raise ConnectionClosed
                 reply = self.io.readline()
                 if reply is None:
